@@ -185,6 +185,10 @@ fn group_a(cat: &mut Catalogue, tier: Tier) {
             (Knob::MissingFn(1), Knob::RenameAll(RenameAll::Lower)),
             (Knob::MissingFn(1), Knob::Rename(1)),
             (Knob::Deny(Deny::Custom), Knob::RenameAll(RenameAll::Camel)),
+            // map on a skipped / defaulted field must still wait for the container to succeed
+            (Knob::Skip(0), Knob::Map(0)),
+            (Knob::Skip(2), Knob::Map(2)),
+            (Knob::DefaultTrait(0), Knob::Map(0)),
         ];
         for &(k1, k2) in pairs {
             let s = apply(apply(base.clone(), k1).unwrap(), k2).unwrap();
